@@ -189,6 +189,11 @@ def gen_case(tape, tier):
         return {"part": "R", "config": {"cls": "disk", "cloudpickle": bool(tape.coin(0.6, "cp")), "with_lru": bool(tape.coin(0.4, "with-lru")),
                                         "hashseeds": [str(tape.choose(50, "hs-a")), str(50 + tape.choose(50, "hs-b"))]},
                 "keys": keys}
+    if tape.coin(0.0008 if tier == "quick" else 0.0002, "file-names"):
+        # a DiskCache file does not record its key: two keys must never share a file name.  100 000+ keys shaped like the
+        # ones pipefunc builds (output name, sorted keyword items) are mapped to their file names, no file is written
+        return {"part": "N", "config": {"cls": "disk", "cloudpickle": bool(tape.coin(0.5, "cp"))},
+                "n": 350 + tape.choose(60, "side"), "offset": tape.choose(1000, "offset")}
     part = "A" if tape.coin(0.6, "part") else "B"
     if part == "A":
         cls = tape.pick(["lru", "lru", "hybrid", "hybrid", "simple", "disk", "disk"], "cls")
@@ -219,7 +224,8 @@ def gen_case(tape, tier):
             if k == "put":
                 nv += 1
                 ops.append({"op": "put", "key": tape.pick(KEYS, "key"),
-                            "value": None if tape.coin(0.15, "none-value") else ("<unstorable>" if tape.coin(0.06, "unstorable") else f"v{nv}"),
+                            "value": None if tape.coin(0.15, "none-value") else ("<unstorable>" if tape.coin(0.06, "unstorable") else
+                                                                                      (f"<bytes>{nv}" if tape.coin(0.08, "bytes-value") else f"v{nv}")),
                             "duration": tape.pick([1, 2, 3, 5, 8] if stress else [0, 0, 1, 1, 2, 5], "duration"),
                             "ctime_step": tape.pick([0, 1, 1, 2, -1], "ctime-step")})
             elif k == "get":
@@ -264,6 +270,8 @@ def gen_case(tape, tier):
 
 
 def simplify(case):
+    if case["part"] == "N":
+        return
     if case["part"] == "R":
         for i in range(len(case["keys"])):
             if len(case["keys"]) > 1:
@@ -492,8 +500,19 @@ def run_A(case, tape):
     return viol, probes, sim
 
 
+def _bytes_value(n):
+    """Values of type bytes, among them ones that look like pickles (they are what a caller caches who serialises himself)."""
+    import pickle
+
+    return [pickle.dumps(("payload", n)), pickle.dumps(None), b"\x80\x05 not a pickle at all", b"", b"plain-%d" % n][n % 5]
+
+
 def _put(c, m, op, cfg, sim, now, before, V, probes):
     k, v = op["key"], op["value"]
+    if isinstance(v, str) and v.startswith("<bytes>"):
+        op = dict(op, value=_bytes_value(int(v[7:])))
+        v = op["value"]
+        probes["bytes_value"] = probes.get("bytes_value", 0) + 1
     if v == "<unstorable>":
         # a value that cannot be pickled: a shared cache (and a disk cache) cannot store it and may raise, but must then
         # be left exactly as it was; a process-local cache just keeps the object
@@ -851,10 +870,39 @@ def run_real(case):
     return out
 
 
+def run_names(case):
+    """Part N: injectivity of DiskCache's key -> file name mapping over a large family of realistic keys."""
+    cfg = case["config"]
+    out = {"violations": [], "probes": {"part:N": 1, "cls:disk": 1}, "nontrivial": [], "evaluations": 1, "yields": 0,
+           "sim_time": 0.0, "exec_tape": [], "digest": None, "sample": case}
+    with C.Scratch() as root:
+        c = _make_cache(dict(cfg, max_size=None, with_lru=False, lru_size=1, shared=False), root)
+        seen = {}
+        n, off = case["n"], case["offset"]
+        for i in range(n):
+            for j in range(n):
+                # ints of one and two bytes, strings of varying length and doubles: the pickles differ in many places
+                key = (f"out{i % 7}", (("a", off + i), ("name", f"v{j}-{(off + i) * j}"), ("t", (off + j) / 7)))
+                name = c._get_file_path(key).name
+                if name in seen:
+                    out["violations"].append({"property": PID, "oracle": "values", "kind": "distinct-keys-share-a-file-name",
+                                              "detail": {"keys": [repr(seen[name]), repr(key)], "file": name, "keys_tried": len(seen)},
+                                              "signature": {"cls": "disk", "part": "N"}})
+                    out["digest"] = C.digest_of([name])
+                    return out
+                seen[name] = key
+        out["probes"]["file_names_compared"] = len(seen)
+        out["digest"] = C.digest_of([len(seen)])
+        out["nontrivial"] = [C.digest_of([case])]
+    return out
+
+
 def run_case(case, exec_seed=None, exec_tape=None):
     C.begin_case()
     if case["part"] == "R":
         return run_real(case)
+    if case["part"] == "N":
+        return run_names(case)
     tape = Tape(exec_seed) if exec_tape is None else Tape(recorded=exec_tape)
     if case["part"] == "A":
         viol, probes, sim = run_A(case, tape)
